@@ -77,6 +77,8 @@ def trace_specs(tier, seed, variants_of, n_quick=10, n_thorough=80, backends=("n
                           Lmin=1 if sch == "lpsd" else rnd.choice([1, 64]), psll=rnd.choice([60, 120, 200]), variants=variants_of(rnd)))
         if i % 5 == 3:            # slowly / fast sampled series (daily data, RF): every clause is stated in bins or relative to fs
             specs[-1]["fs"] = [1e-6, 2.5e-4, 1e6][(i // 5) % 3]
+            if (i // 5) % 2 == 0:
+                specs[-1].update(sched="vectorized_ltf", Lmin=rnd.choice([1, 64]))      # the default scheduler walks a lookup grid in Hz
         if i % 5 == 2:            # the same kind of record in tiny or huge physical units (1e-12, 1e9)
             specs[-1]["amp"] = 2.0 ** -40 if i % 2 == 0 else 2.0 ** 30
         if i % 5 == 4:            # a record with > 1e17 power dynamic range between bins: needs the 200 dB window and order -1/0 only
